@@ -322,4 +322,51 @@ def denseChain : Nat → List DenseSpec → List SzLayer
   | _, [] => []
   | n, d :: t => denseLayer n d :: denseChain d.units t
 
+/-! ### `AutoQKHyperModel.adjusted_score(hyper_model, delta, metric_function)` — the value the tuner maximises
+
+```python
+def score(y_true, y_pred):
+  is_binary = y_p_last_dim == 1
+  is_sparse_categorical = (y_t_rank < y_p_rank or y_t_last_dim == 1 and y_p_last_dim > 1)
+  if isinstance(metric_function, six.string_types):
+    if metric_function in ["accuracy", "acc"]:
+      binary / sparse_categorical / categorical accuracy
+    else: categorical_accuracy
+  else: metric = metric_function(y_true, y_pred)
+  return K.cast(metric * (1.0 + delta), K.floatx())
+if not metric_function: metric_function = "accuracy"     # rebinding seen by the closure
+```
+-/
+
+inductive MetricKind
+  | binary | sparse | categorical | custom
+  deriving DecidableEq, Repr
+
+/-- the argument forms of `metric_function` -/
+inductive MetricArg
+  | none                  -- `None` (or any falsy value): replaced by "accuracy"
+  | str (s : String)
+  | fn                    -- a callable
+  deriving DecidableEq, Repr
+
+/-- which metric `score` evaluates, from the argument and the two static shapes -/
+def selectMetric (m : MetricArg) (ytRank ypRank ytLast ypLast : Int) : MetricKind :=
+  let isBinary := ypLast == 1
+  let isSparse := decide (ytRank < ypRank) || (ytLast == 1 && decide (ypLast > 1))
+  let byShape := if isBinary then MetricKind.binary else if isSparse then .sparse else .categorical
+  match m with
+  | .none => byShape
+  | .str s => if s == "" then byShape
+              else if s == "accuracy" || s == "acc" then byShape else .categorical
+  | .fn => .custom
+
+/-- `metric * (1.0 + delta)`, generic in the arithmetic -/
+def scoreWith {α : Type} (mul add : α → α → α) (one : α) (metric delta : α) : α :=
+  mul metric (add one delta)
+
+/-- the float evaluation: `1.0 + delta` in float64 (Python / numpy scalar), converted to the float32 of the
+    metric tensor, float32 product (normal range) -/
+def scoreF (metric delta : Rat) : Rat :=
+  scoreWith (fun x y => rndP 24 (x * y)) (fun x y => rndP 24 (rnd64 (x + y))) 1 metric delta
+
 end QKV.Forgiving
